@@ -59,6 +59,9 @@ static void build_alphabet(void)
         static const uint8_t ACK[] = { 0, 1, 2, 3, 4, CO_SDO_BUF_SEG, CO_SDO_BUF_SEG + 1, 0xFF }, BS[] = { 0, 1, 2, CO_SDO_BUF_SEG, 127, 128 };
         for (unsigned a = 0; a < sizeof ACK; a++) for (unsigned b = 0; b < sizeof BS; b++) add(0xA2, (uint16_t)(ACK[a] | (BS[b] << 8)), 0, 0);
     }
+    if (mc_opt("csdo", 0)) {    /* the COB-IDs of SDO client 0 are written through the server: switched off, on again, read (they share a type function with 1200h) */
+        add(0x23, 0x1280, 1, 0x8000060A); add(0x23, 0x1280, 1, 0x0000060A); add(0x23, 0x1280, 2, 0x8000058A); add(0x23, 0x1280, 2, 0x0000058A); add(0x40, 0x1280, 1, 0);
+    }
     if (mc_opt("dlc", 0)) {     /* C01: truncated frames (only the safety monitor judges them) */
         static const uint8_t C[] = { 0x40, 0x23, 0x21, 0x00, 0x01, 0x60, 0xA0, 0xA3, 0xA2, 0xC2, 0xC1, 0x80, 0x81 }, D[] = { 0, 1, 4, 7 };
         for (unsigned c = 0; c < sizeof C; c++) for (unsigned k = 0; k < sizeof D; k++) {
